@@ -102,6 +102,7 @@ TFinalize ==
   /\ Chk("C15_ReportAsSerial", 0, coll = M!SerialColl(files) /\ R.exit = M!SerialExit(files, fix))
   /\ Chk("C15_DiskAsSerial", 0, R.disk = M!SerialDisk(files, fix))
   /\ Chk("C16_TargetOrigOrFixed", 0, \A i \in 1..Len(files) : R.disk[i] \in {"orig", "fixed"})
+  /\ Chk("C20_AllIsPlainFix", 0, \A i \in 1..Len(R.foSame) : R.foSame[i])       \* --fix_only listing every rule with "all", several files: each ends as after a plain --fix
   /\ Chk("C19_RejectedGoesOn", 0, \A i \in 1..Len(files) : (\A j \in 1..(i - 1) : files[j].cls # "cfgerr") => i \in Range(coll))
   /\ R.disk = disk            \* (hard: chooses the interleaving in which abandoned workers wrote what the disk shows)
   /\ TLCSet(1, TLCGet(1) \cup {n})
